@@ -311,3 +311,25 @@ def boolean_options(skip=("specify_target_noise", "uncertainty_handling", "plot"
             if m and m.group(1) not in skip:
                 out.append((m.group(1), m.group(2) == "True"))
     return out
+
+
+def retyped_numeric_options(D=2):
+    """{option: python-literal string} for every numeric option of the two option files whose default is a plain number: integral-valued floats
+    spelled as int, ints spelled as float (the VALUE is the default, only the Python type differs).  Options that index or size arrays
+    (and therefore must stay ints) are left alone."""
+    import numpy as np
+    from pybads import BADS
+    keep_int = ("n_search", "n_search_iter", "max_fun_evals", "max_iter", "fun_eval_start", "noise_final_samples", "cache_size", "n_train_max", "n_train_min",
+                "buffer_ntrain", "gp_train_n_init", "gp_train_n_init_final", "search_n_try", "tol_stall_iters", "restarts", "random_seed", "gp_samples",
+                "k_warmup", "stable_gp_vpk", "warp_func", "min_iter", "min_fun_evals", "max_repeated_observations", "search_cache_frac", "gp_refit_period")
+    b0 = BADS(lambda x: 0.0, np.full(D, 0.3), np.full(D, -4.0), np.full(D, 6.0), np.full(D, -2.0), np.full(D, 3.0), options={"display": "off"})
+    out = {}
+    for k in sorted(b0.options.keys()):
+        v = b0.options[k]
+        if k in keep_int or isinstance(v, (bool, np.bool_)) or v is None:
+            continue
+        if isinstance(v, (float, np.floating)) and np.isfinite(v) and float(v) == int(v):
+            out[k] = repr(int(v))
+        elif isinstance(v, (int, np.integer)):
+            out[k] = repr(float(v))
+    return out
